@@ -301,7 +301,12 @@ def shrink_comp(r, case, prop, clause, T):
 POOL = [("C:0=6,H:0=12,O:0=6", "n:5", 0), ("C:0=600,H:0=1200,O:0=600", "guess", 1), ("H:0=2,O:0=1", "n:300", 0),
         ("O:0=6,C:0=6,H:0=12", "n:2", 2), ("C:0=2,S:0=1", "n:17", 1), ("C:0=34,H:0=53,O:0=15,N:0=7", "guess", 1),
         ("H:0=1", "n:1", 0), ("K:0=3,C:0=1", "f:7/8", -1), ("O:0=1,H:0=2", "guess", 3), ("C:0=100", "n:64", 1),
-        ("S:0=2,C:0=2", "n:3", 0), ("N:0=7,O:0=15,H:0=53,C:0=34", "n:9", 2)]
+        ("S:0=2,C:0=2", "n:3", 0), ("N:0=7,O:0=15,H:0=53,C:0=34", "n:9", 2),
+        # elements whose polynomial has degree >= 3: a short request followed by a longer one must not damage the
+        # cached constants (generator vs stateless and vs the model, which shares the recorded defect D5)
+        ("C:0=10,H:0=12,N:0=2,O:0=8,Zn:0=1", "n:2", 0), ("C:0=10,H:0=12,N:0=2,O:0=8,Zn:0=1", "n:12", 1),
+        ("Ca:0=2,C:0=1", "n:3", 0), ("Ca:0=2,C:0=1", "n:14", 0), ("Se:0=2", "n:2", 1), ("Se:0=2,H:0=2", "n:15", 0),
+        ("Sn:0=1,C:0=4", "n:20", 1), ("Sn:0=1", "n:2", 0)]
 
 
 def call_str(c):
@@ -320,7 +325,7 @@ def run_c08(r: Run):
     rng = random.Random(r.seed + 8)
     thorough = r.tier == "thorough"
     depth = 4 if thorough else 3
-    pool = POOL if thorough else POOL[:8]
+    pool = POOL if thorough else POOL[:5] + POOL[12:17]
     hists = []
     for L in range(1, depth + 1):
         for h in itertools.product(range(len(pool)), repeat=L):
